@@ -45,43 +45,46 @@ theorem Dir.eq_nil_of_get (d : Dir) (h : ∀ n, d.get n = none) : d = [] := by
 
 /-! ## shape of saver programs: every item has a rank, programs are sorted by rank, milestones are never skipped -/
 
-/-- position of an item in the protocol: `__init__` 0–14, chunk phase 15, close 16–24 -/
+/-- position of an item in the (current) protocol: `__init__` 0–15, chunk phase 16, close 17–25.
+Items of the old in-place removal of the final directory have no place in it (rank 100).  An `if exists: …` item
+ranks just above the items it expands into, so that expanding it keeps a program sorted. -/
 def rank : Item → Nat
-  | .op (.existsDir .final) => 0
-  | .rmtreeIf .final => 1
-  | .op (.listdir .final) => 2
-  | .unlinks .final => 3
-  | .op (.rmdir .final) => 4
-  | .op (.existsDir .temp) => 5
-  | .rmtreeIf .temp => 6
-  | .op (.listdir .temp) => 7
-  | .unlinks .temp => 8
-  | .op (.rmdir .temp) => 9
-  | .op (.mkdir .temp) => 10
-  | .flushOpen .init => 11
-  | .flushWrite .init => 12
-  | .flushClose .init => 13
-  | .armed => 14
-  | .append _ => 15
-  | .submit _ _ => 15
-  | .join => 15
-  | .poll => 15
-  | .waitAll => 15
-  | .flushOpen .chunk => 15
-  | .flushWrite .chunk => 15
-  | .flushClose .chunk => 15
-  | .waitQuiet => 16
-  | .markClosed => 17
-  | .checkTemp => 18
-  | .collect => 19
-  | .readInfo _ => 19
-  | .op (.unlink .temp (.cmeta _)) => 19
-  | .flushOpen .last => 20
-  | .flushWrite .last => 21
-  | .flushClose .last => 22
-  | .op (.renameDir .temp .final) => 23
-  | .finish => 24
-  | .op _ => 100
+  | .op (.existsDir .temp) => 0
+  | .rmList .temp false => 1
+  | .unlinks .temp false => 2
+  | .rmRmdir .temp false => 3
+  | .rmtreeIf .temp false => 4
+  | .op (.existsDir .final) => 5
+  | .op (.renameDir .final .temp) => 6
+  | .rmList .temp true => 7
+  | .unlinks .temp true => 8
+  | .rmRmdir .temp true => 9
+  | .moveFinalIf => 10
+  | .op (.mkdir .temp) => 11
+  | .flushOpen .init => 12
+  | .flushWrite .init => 13
+  | .flushClose .init => 14
+  | .armed => 15
+  | .append _ => 16
+  | .submit _ _ => 16
+  | .join => 16
+  | .poll => 16
+  | .waitAll => 16
+  | .flushOpen .chunk => 16
+  | .flushWrite .chunk => 16
+  | .flushClose .chunk => 16
+  | .waitQuiet => 17
+  | .markClosed => 18
+  | .checkTemp => 19
+  | .collect => 20
+  | .readInfo _ => 20
+  | .op (.unlink .temp (.cmeta _)) => 20
+  | .flushOpen .last => 21
+  | .flushWrite .last => 22
+  | .flushClose .last => 23
+  | .op (.renameDir .temp .final) => 24
+  | .finish => 25
+  | _ => 100
 
 /-- an operation that only touches entries of the temp directory -/
 def tempOp : Op → Bool
@@ -93,15 +96,15 @@ def tempOp : Op → Bool
 
 def okItem : Item → Bool
   | .submit _ ops => ops.all tempOp
-  | x => rank x ≤ 24
+  | x => rank x ≤ 25
 
-/-- rank of the head item; 25 when the program is exhausted -/
+/-- rank of the head item; 26 when the program is exhausted -/
 def hr (p : List Item) : Nat :=
   match p with
-  | [] => 25
+  | [] => 26
   | x :: _ => rank x
 
-@[simp] theorem hr_nil : hr [] = 25 := rfl
+@[simp] theorem hr_nil : hr [] = 26 := rfl
 @[simp] theorem hr_cons (x : Item) (p : List Item) : hr (x :: p) = rank x := rfl
 
 def Sorted (p : List Item) : Prop := p.Pairwise (fun a b => rank a ≤ rank b)
@@ -111,7 +114,7 @@ theorem Sorted.tail {x : Item} {p : List Item} (h : Sorted (x :: p)) : Sorted p 
 theorem Sorted.head_le {x : Item} {p : List Item} (h : Sorted (x :: p)) : ∀ y ∈ p, rank x ≤ rank y :=
   (List.pairwise_cons.mp h).1
 
-theorem hr_tail_ge {x : Item} {p : List Item} (h : Sorted (x :: p)) (hx : rank x ≤ 25) : rank x ≤ hr p := by
+theorem hr_tail_ge {x : Item} {p : List Item} (h : Sorted (x :: p)) (hx : rank x ≤ 26) : rank x ≤ hr p := by
   cases p with
   | nil => simpa using hx
   | cons y q => exact h.head_le y (by simp)
@@ -136,7 +139,192 @@ theorem rank_milestone_unique {m y : Item} (hm : m ∈ milestones) (h : rank y =
   simp only [milestones, List.mem_cons, List.mem_nil_iff, or_false] at hm
   rcases hm with rfl | rfl | rfl | rfl | rfl | rfl | rfl
   all_goals
-    cases y <;> simp [rank] at h ⊢
-  all_goals sorry
+    simp only [rank] at h
+    split at h <;> simp_all
+
+theorem Miles.tail {x : Item} {p : List Item} (hs : Sorted (x :: p)) (hm : Miles (x :: p)) : Miles p := by
+  intro m hmm hle
+  cases p with
+  | nil =>
+    simp only [hr_nil] at hle
+    simp only [milestones, List.mem_cons, List.mem_nil_iff, or_false] at hmm
+    rcases hmm with rfl | rfl | rfl | rfl | rfl | rfl | rfl <;> simp [rank] at hle
+  | cons y q =>
+    simp only [hr_cons] at hle
+    have hxy : rank x ≤ rank y := hs.head_le y (by simp)
+    have hin : m ∈ x :: y :: q := hm m hmm (by simp only [hr_cons]; omega)
+    rcases List.mem_cons.mp hin with rfl | hin
+    · -- the milestone itself was popped; the next item has the same rank, hence is the milestone again
+      have : y = m := rank_milestone_unique hmm (by omega)
+      simp [this]
+    · exact hin
+
+
+/-! ## the programs of the protocol have the shape -/
+
+theorem rank_chunkItems {v : Variant} {r : Bool} {i : Nat} {c : Chunk} : ∀ x ∈ chunkItems v r i c, rank x = 16 := by
+  intro x hx
+  cases v <;> simp only [chunkItems, flushItems] at hx
+  all_goals
+    split at hx <;> (try split at hx) <;> simp at hx
+    all_goals (rcases hx with h | h | h | h | h | h | h <;> (try subst h) <;> simp_all [rank])
+
+
+theorem rank_chunksItems {v : Variant} {r : Bool} : ∀ (cs : List Chunk) (i : Nat), ∀ x ∈ chunksItems v r i cs, rank x = 16 := by
+  intro cs
+  induction cs with
+  | nil => intro i x hx; simp [chunksItems] at hx
+  | cons c rest ih =>
+    intro i x hx
+    simp only [chunksItems, List.mem_append] at hx
+    rcases hx with hx | hx
+    · exact rank_chunkItems x hx
+    · exact ih _ x hx
+
+theorem tempOp_writeOps (i : Nat) (rs : List Row) : ∀ o ∈ writeOps i rs, tempOp o = true := by
+  intro o ho
+  simp only [writeOps, List.mem_cons, List.mem_nil_iff, or_false] at ho
+  rcases ho with rfl | rfl | rfl | rfl <;> rfl
+
+theorem tempOp_forkOps (i : Nat) (c : Chunk) : ∀ o ∈ forkOps i c, tempOp o = true := by
+  intro o ho
+  simp only [forkOps, List.mem_append] at ho
+  rcases ho with (ho | ho) | ho
+  · split at ho
+    · simp at ho
+    · exact tempOp_writeOps _ _ o ho
+  · simp only [List.mem_cons, List.mem_nil_iff, or_false] at ho
+    rcases ho with rfl | rfl | rfl <;> rfl
+  · split at ho
+    · simp only [List.mem_cons, List.mem_nil_iff, or_false] at ho
+      rcases ho with rfl | rfl | rfl <;> rfl
+    · simp at ho
+
+theorem ok_chunkItems {v : Variant} {r : Bool} {i : Nat} {c : Chunk} : ∀ x ∈ chunkItems v r i c, okItem x = true := by
+  intro x hx
+  have hr := rank_chunkItems x hx
+  cases x with
+  | submit j ops =>
+    simp only [okItem, List.all_eq_true]
+    cases v <;> simp only [chunkItems, flushItems] at hx
+    all_goals
+      split at hx <;> (try split at hx) <;> simp at hx
+    all_goals
+      first
+        | (obtain ⟨_, rfl⟩ := hx; first | exact tempOp_writeOps _ _ | exact tempOp_forkOps _ _)
+        | skip
+  | _ => simp_all [okItem]
+
+
+theorem ok_chunksItems {v : Variant} {r : Bool} : ∀ (cs : List Chunk) (i : Nat), ∀ x ∈ chunksItems v r i cs, okItem x = true := by
+  intro cs
+  induction cs with
+  | nil => intro i x hx; simp [chunksItems] at hx
+  | cons c rest ih =>
+    intro i x hx
+    simp only [chunksItems, List.mem_append] at hx
+    rcases hx with hx | hx
+    · exact ok_chunkItems x hx
+    · exact ih _ x hx
+
+/-- the three shape properties together -/
+structure Shape (p : List Item) : Prop where
+  sorted : Sorted p
+  ok : ∀ x ∈ p, okItem x = true
+  miles : Miles p
+
+theorem Shape.tail {x : Item} {p : List Item} (h : Shape (x :: p)) : Shape p :=
+  ⟨h.sorted.tail, fun y hy => h.ok y (by simp [hy]), Miles.tail h.sorted h.miles⟩
+
+theorem sorted_closeItems : Sorted closeItems := by
+  simp [Sorted, closeItems, flushItems, rank]
+
+theorem ok_closeItems : ∀ x ∈ closeItems, okItem x = true := by
+  intro x hx
+  simp only [closeItems, flushItems, List.cons_append, List.nil_append, List.mem_cons, List.mem_nil_iff, or_false] at hx
+  rcases hx with rfl | rfl | rfl | rfl | rfl | rfl | rfl | rfl | rfl <;> simp [okItem, rank]
+
+theorem rank_closeItems_ge : ∀ x ∈ closeItems, 17 ≤ rank x := by
+  intro x hx
+  simp only [closeItems, flushItems, List.cons_append, List.nil_append, List.mem_cons, List.mem_nil_iff, or_false] at hx
+  rcases hx with rfl | rfl | rfl | rfl | rfl | rfl | rfl | rfl | rfl <;> simp [rank]
+
+/-- a block of chunk-phase items followed by the close sequence -/
+theorem shape_mid_close {mid : List Item} (hr16 : ∀ x ∈ mid, rank x = 16) (hok : ∀ x ∈ mid, okItem x = true) :
+    Shape (mid ++ closeItems) := by
+  refine ⟨?_, ?_, ?_⟩
+  · refine List.pairwise_append.mpr ⟨?_, sorted_closeItems, ?_⟩
+    · exact List.pairwise_of_forall_mem_list (fun a ha b hb => by rw [hr16 a ha, hr16 b hb]; exact Nat.le_refl _)
+    · intro a ha b hb
+      rw [hr16 a ha]; have := rank_closeItems_ge b hb; omega
+  · intro x hx
+    rcases List.mem_append.mp hx with h | h
+    · exact hok x h
+    · exact ok_closeItems x h
+  · intro m hm hle
+    have h16 : 16 ≤ hr (mid ++ closeItems) := by
+      cases mid with
+      | nil => simp [closeItems, rank]
+      | cons y q => simp [hr16 y (by simp)]
+    simp only [milestones, List.mem_cons, List.mem_nil_iff, or_false] at hm
+    rcases hm with rfl | rfl | rfl | rfl | rfl | rfl | rfl
+    all_goals first
+      | (simp [rank] at hle; omega)
+      | (apply List.mem_append_right; simp [closeItems, flushItems])
+
+theorem shape_handlerItems (h : HandlerSpec) : Shape (handlerItems h) :=
+  shape_mid_close (rank_chunksItems _ _) (ok_chunksItems _ _)
+
+/-- chunk phase of the main program -/
+def mainItems (v : Variant) (cs : List Chunk) : List Item :=
+  chunksItems v true 0 cs ++ (if v != .serial then [.waitAll] else [])
+
+theorem rank_mainItems {v : Variant} {cs : List Chunk} : ∀ x ∈ mainItems v cs, rank x = 16 := by
+  intro x hx
+  simp only [mainItems, List.mem_append] at hx
+  rcases hx with hx | hx
+  · exact rank_chunksItems _ _ x hx
+  · split at hx <;> simp at hx
+    subst hx; rfl
+
+theorem ok_mainItems {v : Variant} {cs : List Chunk} : ∀ x ∈ mainItems v cs, okItem x = true := by
+  intro x hx
+  have hr := rank_mainItems x hx
+  simp only [mainItems, List.mem_append] at hx
+  rcases hx with hx | hx
+  · exact ok_chunksItems _ _ x hx
+  · split at hx <;> simp at hx
+    subst hx; rfl
+
+theorem saverProg_eq (v : Variant) (cs : List Chunk) : saverProg v {} cs = initItems ++ (mainItems v cs ++ closeItems) := by
+  simp [saverProg, mainItems, List.append_assoc]
+
+theorem shape_saverProg (v : Variant) (cs : List Chunk) : Shape (saverProg v {} cs) := by
+  rw [saverProg_eq]
+  have hmc := shape_mid_close (mid := mainItems v cs) rank_mainItems ok_mainItems
+  have hin : ∀ x ∈ initItems, rank x ≤ 15 ∧ okItem x = true := by
+    intro x hx
+    simp only [initItems, flushItems, List.cons_append, List.nil_append, List.mem_cons, List.mem_nil_iff, or_false] at hx
+    rcases hx with rfl | rfl | rfl | rfl | rfl | rfl | rfl | rfl | rfl <;> simp [okItem, rank]
+  have hge : ∀ y ∈ mainItems v cs ++ closeItems, 16 ≤ rank y := by
+    intro y hy
+    rcases List.mem_append.mp hy with h | h
+    · rw [rank_mainItems y h]; exact Nat.le_refl _
+    · have := rank_closeItems_ge y h; omega
+  refine ⟨?_, ?_, ?_⟩
+  · refine List.pairwise_append.mpr ⟨?_, hmc.sorted, ?_⟩
+    · simp [initItems, flushItems, rank]
+    · intro a ha b hb
+      have := (hin a ha).1; have := hge b hb; omega
+  · intro x hx
+    rcases List.mem_append.mp hx with h | h
+    · exact (hin x h).2
+    · exact hmc.ok x h
+  · intro m hm _
+    simp only [milestones, List.mem_cons, List.mem_nil_iff, or_false] at hm
+    rcases hm with rfl | rfl | rfl | rfl | rfl | rfl | rfl
+    · apply List.mem_append_left; simp [initItems, flushItems]
+    · apply List.mem_append_left; simp [initItems, flushItems]
+    all_goals (apply List.mem_append_right; apply List.mem_append_right; simp [closeItems, flushItems])
 
 end Strax.FS
